@@ -36,6 +36,9 @@ fn main() {
                 a.get("stats"),
                 a.get("mode").unwrap_or("direct"),
             ));
+            // background threads of the dropped instances (sqlite readers/writers, verifier pool) may still be
+            // winding down; skip the process-wide atexit handlers (OpenSSL cleanup) they would race with
+            unsafe { libc::_exit(0) }
         }
         _ => {
             eprintln!("usage: dv-ingest gen|run|fix …");
